@@ -33,8 +33,8 @@ class C09(C01):
             ([], [(1, 0, T.ack(1))]),                                              # last block outstanding
         ]
         for d in all_datagrams(maxlen, alpha):
-            if quick and len(d) == 4 and d[0] != 0:
-                continue
+            if len(d) >= 4 and d[0] != 0 and (quick or len(d) == 5 or d[1] not in (1, 4, 5)):
+                continue          # opcodes >= 256 all fall into the same "unknown opcode" class; keep a sample
             for (opts, pre) in points:
                 for a in (0, 1, 2):
                     if quick and a >= 1 and len(d) >= 3:
